@@ -30,8 +30,9 @@ answered") a quarter of the jobs with >= 3 documents deal their fractions to 2 o
 interrupt every store before its last fraction, record the real handler's answer for every "k of n
 processed" and for done (after a real restart that resumes the request), and run the real
 search.Ingestor.FetchAsyncSearchResult live and over EVERY vector of per-shard states the model emits
-(EmitPVec): Done must be the model's, a done answer must be the proxy's synchronous Search over all
-shards and the AggCases reference, a not-done answer exactly the union of what the shards gave; some
+(EmitPVec): where the model's answer is done the proxy must report done, and every answer that reports
+done must be the proxy's synchronous Search over all shards and the AggCases reference (a done flag
+that is not the model's is a violation exactly when the answer it vouches for is incomplete); some
 shards get a first replica that never saw the request.  (B2) one real request runs under strace; the observed system calls on the
 request's directory must be the model's operation order for every file (incl. both fsyncs)."""
 import hashlib
